@@ -39,6 +39,7 @@ type RunResult struct {
 	TxOK        int            `json:"tx_ok"`
 	TxFail      int            `json:"tx_fail"`
 	Trace       string         `json:"trace"`
+	RaceOther   int            `json:"race_other,omitempty"`
 }
 
 const maxStepsPerHeight = 12
